@@ -435,8 +435,10 @@ def run_harness(args):
     part, drift = None, None
     try:
         part, fp_end = par.in_child(_explore_warm, args, solo_before, traced, steps)
-        if fp_end != fp0:
-            drift = "library state after the exploration differs from the state before it"
+        if fp_end != fp0 or part["stats"].get("explorations_stopped_early_because_library_state_drifted"):
+            # (the second condition matters: an exploration that was stopped early because the state
+            # had moved may happen to end in the start state again)
+            drift = "library state during or after the exploration differs from the state before it"
     except report.HarnessError as e:
         if "ReplayDivergence" in str(e):
             drift = "a schedule prefix took a different path than when it was recorded"
